@@ -110,6 +110,9 @@ TRANSPARENT = {
     "std::string::String::into_boxed_str", "std::str::<impl str>::to_string", "std::str::<impl str>::to_owned",
     "std::slice::<impl [T]>::to_vec", "core::slice::<impl [T]>::to_vec", "std::vec::Vec::as_slice",
     "std::convert::identity", "std::hint::must_use", "std::string::String::as_mut_str",
+    # views of an Option / Result that keep the variant and (a reference to) the payload
+    "std::option::Option::as_ref", "std::option::Option::as_deref", "std::option::Option::cloned", "std::option::Option::copied",
+    "std::result::Result::as_ref",
 }
 UNWRAPS = {
     "std::result::Result::unwrap", "std::result::Result::expect",
@@ -158,6 +161,26 @@ def strip_generics(name):
 
 
 ITERS = ("iterlit", "iteradapt")
+_SOME = ("std::option::Option", "Some")
+_OK = ("std::result::Result", "Ok")
+_ERR = ("std::result::Result", "Err")
+# name -> (kind, argument count, value when the payload is present, value when it is absent); value specs:
+#   ("x",) the payload | ("self",) the operand itself | ("arg", i) argument i | ("f", i) closure i applied to the payload |
+#   ("f0", i) closure i applied to nothing | ("wrapf", i, V) V(closure i (payload)) | ("wrapf0", i, V) V(closure i ()) |
+#   ("wrapx", V) V(payload) | ("wraparg", i, V) V(argument i) | ("none",) None | ("ferr", i) closure i applied to the error
+COMBINATORS = {
+    "std::option::Option::map": ("opt", 2, ("wrapf", 1, _SOME), ("none",)),
+    "std::option::Option::map_or": ("opt", 3, ("f", 2), ("arg", 1)),
+    "std::option::Option::map_or_else": ("opt", 3, ("f", 2), ("f0", 1)),
+    "std::option::Option::and_then": ("opt", 2, ("f", 1), ("none",)),
+    "std::option::Option::unwrap_or_else": ("opt", 2, ("x",), ("f0", 1)),
+    "std::option::Option::ok_or_else": ("opt", 2, ("wrapx", _OK), ("wrapf0", 1, _ERR)),
+    "std::option::Option::ok_or": ("opt", 2, ("wrapx", _OK), ("wraparg", 1, _ERR)),
+    "std::result::Result::map": ("res", 2, ("wrapf", 1, _OK), ("self",)),
+    "std::result::Result::and_then": ("res", 2, ("f", 1), ("self",)),
+    "std::result::Result::unwrap_or_else": ("res", 2, ("x",), ("ferr", 1)),
+    "std::result::Result::map_or": ("res", 3, ("f", 2), ("arg", 1)),
+}
 
 
 class _NoIter(Exception):
@@ -846,6 +869,36 @@ class _Run:
                 forked = self.iter_call(st, bb, t, name, callee, args, raw)
                 if forked is not None:
                     return forked
+            if target_fn is None and callee["name"] == "saturating_sub" and len(args) == 2 and \
+                    ((callee.get("self_ty") or callee.get("impl_self") or "") == U128 or name.startswith("cosmwasm_std::Uint128::")):
+                # a.saturating_sub(b) is `if a < b { 0 } else { a - b }`: read as that branch
+                a_, b_ = args
+                atom = sym.op("lt", a_, b_)
+                known = st.memo.get(atom)
+                if known not in (True, False):
+                    known = None
+                    # the strict reverse order decides it: b < a (or a > b) excludes a < b
+                    if st.memo.get(sym.op("lt", b_, a_)) is True or st.memo.get(sym.op("gt", a_, b_)) is True or \
+                            st.memo.get(sym.op("le", b_, a_)) is True or st.memo.get(sym.op("ge", a_, b_)) is True:
+                        known = False
+                    elif st.memo.get(sym.op("gt", b_, a_)) is True or st.memo.get(sym.op("ge", a_, b_)) is False or st.memo.get(sym.op("le", b_, a_)) is False:
+                        known = True
+                    elif st.memo.get(sym.op("lt", b_, a_)) is False and st.memo.get(sym.op("is_zero", sym.unwrap(sym.op("u.checked_sub", b_, a_)))) is False:
+                        known = True    # b >= a and b - a != 0: a < b
+                outs = []
+                for i, br in enumerate([True, False] if known is None else [known]):
+                    s1 = st if (known is not None or i == 1) else st.fork()
+                    if known is None:
+                        self.add_cond(s1, (atom, br), bb_from=None, line=t["line"])
+                    v_ = sym.intc(0, U128) if br else sym.unwrap(sym.op("u.checked_sub", a_, b_))
+                    root, path = self.resolve(s1, t["dest"])
+                    self.write(s1, root, path, v_)
+                    outs.append((s1, t["target"]))
+                return outs
+            if target_fn is None and name in COMBINATORS and len(args) == COMBINATORS[name][1]:
+                forked = self.combinator_call(st, bb, t, name, args)
+                if forked is not None:
+                    return forked
             result = self.model(st, callee, name, args, raw, site, occ, target_fn, t)
         ev = Event(fn, bb, t["line"], callee, name, args, raw, result, target_fn, self_ty)
         ev.idx = len(st.events)
@@ -858,7 +911,12 @@ class _Run:
     # -- iteration over lists whose elements are all known --------------------
     def deep_deref(self, st, v, depth=3):
         """elements of a literal list as values: shared references inside tuples are read now"""
-        v = self.deref_val(st, v)
+        n = 0
+        while tag(v) == "ref" and not payload(v)[2] and n < 8:
+            r, p_, _m = payload(v)
+            v = self.read(st, r, list(p_))
+            n += 1
+        # (a `&mut` element stays a reference: the loop body writes through it)
         if depth > 0 and tag(v) in ("tuple", "array"):
             return mk(tag(v), payload(v), tuple(self.deep_deref(st, x, depth - 1) for x in kids(v)))
         return v
@@ -866,12 +924,13 @@ class _Run:
     def call_closure(self, st, clo, argvals, bb, t):
         """one call of a closure value with the given arguments, recorded as an event of this body"""
         ctarget = self.closure_target(clo)
-        if ctarget is None or ctarget.arg_count != 1 + len(argvals):
+        is_item = tag(clo) == "fnref"
+        if ctarget is None or ctarget.arg_count != (0 if is_item else 1) + len(argvals):
             return None
         site = "%s#%d" % (self.fn.key, bb)
         occ = st.occ.get(bb, 0)
         st.occ[bb] = occ + 1
-        args = [clo] + list(argvals)
+        args = list(argvals) if is_item else [clo] + list(argvals)
         callee = {"name": ctarget.name, "pretty": ctarget.pretty, "trait": None, "args": [], "res_kind": "item",
                   "res_krate": ctarget.crate, "res_key": ctarget.key, "krate": ctarget.crate}
         t2 = dict(t)
@@ -898,6 +957,27 @@ class _Run:
             it1 = mk("iteradapt", (kind,), (src1, clo))
             if item is None:
                 out.append((s1, it1, None))
+                continue
+            if kind == "flatten":
+                # an iterator of Options: Some(x) yields x, None is skipped
+                if tag(item) == "agg" and payload(item)[1] in ("Some", "None"):
+                    if payload(item)[1] == "Some":
+                        out.append((s1, it1, kids(item)[0]))
+                    else:
+                        out.extend(self.iter_pull(s1, it1, bb, t))
+                    continue
+                at_ = sym.op("is_some", item)
+                kn_ = s1.memo.get(at_)
+                if kn_ is True:
+                    out.append((s1, it1, sym.unwrap(item)))
+                elif kn_ is False:
+                    out.extend(self.iter_pull(s1, it1, bb, t))
+                else:
+                    s2 = s1.fork()
+                    self.add_cond(s1, (at_, True), bb_from=None, line=t["line"])
+                    out.append((s1, it1, sym.unwrap(item)))
+                    self.add_cond(s2, (at_, False), bb_from=None, line=t["line"])
+                    out.extend(self.iter_pull(s2, it1, bb, t))
                 continue
             r = self.call_closure(s1, clo, [item], bb, t)
             if r is None:
@@ -970,6 +1050,68 @@ class _Run:
                 setattr(st, k, getattr(snap, k))
             return None
 
+    def combinator_call(self, st, bb, t, name, args):
+        """Option / Result combinators that take a closure (`map`, `map_or`, `and_then`, `ok_or_else`, `unwrap_or_else`, ..):
+        read as the `match` they abbreviate - one continuation per variant, the closure called on the payload.
+        None: not handled (closure unknown)"""
+        kind, _n, present, absent = COMBINATORS[name]
+        x = args[0]
+        some_v, none_v = ("Some", "None") if kind == "opt" else ("Ok", "Err")
+        atom = sym.op("is_some" if kind == "opt" else "is_ok", x)
+        clos = [a for a in args[1:] if self.closure_target(a) is not None]
+        need = sum(1 for spec in (present, absent) if spec[0] in ("f", "wrapf", "f0", "wrapf0", "ferr"))
+        if len(clos) < need:
+            return None
+        if tag(x) == "agg" and payload(x)[1] in (some_v, none_v):
+            known = payload(x)[1] == some_v
+        else:
+            known = st.memo.get(atom)
+            if known not in (True, False):
+                known = None
+        snap = st.fork()
+
+        def value(s1, spec, is_present):
+            how = spec[0]
+            payload_v = sym.unwrap(x) if is_present else mk("unwrap_err", (), (x,))
+            if how == "x":
+                return payload_v
+            if how == "self":
+                return x
+            if how == "arg":
+                return args[spec[1]]
+            if how == "wrapx":
+                return sym.agg(spec[1][0], spec[1][1], ["0"], [payload_v])
+            if how == "wraparg":
+                return sym.agg(spec[2][0], spec[2][1], ["0"], [args[spec[1]]])
+            if how == "none":
+                return sym.agg("std::option::Option", "None", [], [])
+            clo = args[spec[1]]
+            if how in ("f", "wrapf", "ferr"):
+                r = self.call_closure(s1, clo, [payload_v], bb, t)
+            else:
+                r = self.call_closure(s1, clo, [], bb, t)
+            if r is None:
+                raise _NoIter()
+            if how in ("wrapf", "wrapf0"):
+                return sym.agg(spec[2][0], spec[2][1], ["0"], [r])
+            return r
+        try:
+            outs = []
+            branches = [(True, present), (False, absent)] if known is None else [(known, present if known else absent)]
+            for i, (is_present, spec) in enumerate(branches):
+                s1 = st if i == len(branches) - 1 else st.fork()
+                if known is None:
+                    self.add_cond(s1, (atom, is_present), bb_from=None, line=t["line"])
+                v = value(s1, spec, is_present)
+                root, path = self.resolve(s1, t["dest"])
+                self.write(s1, root, path, v)
+                outs.append((s1, t["target"]))
+            return outs
+        except _NoIter:
+            for k in _State.__slots__:
+                setattr(st, k, getattr(snap, k))
+            return None
+
     def any_as_contains(self, it, clo):
         """contains(list, y) for iter(list).any(closure) when the closure is `|x| x == y` with y captured"""
         src = it
@@ -1001,6 +1143,10 @@ class _Run:
     def closure_target(self, f):
         if tag(f) == "closure":
             return self.world.by_pretty.get(payload(f)[0])
+        if tag(f) == "fnref":
+            # a function item handed to a combinator (`.map(wrap)`): a workspace function is called like a closure
+            ft = self.world.fns.get(payload(f)[1])
+            return ft if ft is not None and ft.crate in WORKSPACE else None
         if tag(f) == "param" and payload(f)[0] == self.fn.key:
             c = getattr(self.fn, "closure_args", {}).get(payload(f)[1])
             if c is not None:
@@ -1055,6 +1201,13 @@ class _Run:
                     return kids(a0)[0]
                 if payload(a0)[1] in ("None", "Err"):
                     return args[1]
+            if name in ("std::option::Option::unwrap_or", "std::result::Result::unwrap_or") and len(args) == 2:
+                # decided by what the path already knows about the operand
+                k_ = st.memo.get(sym.op("is_some" if name.startswith("std::option") else "is_ok", a0))
+                if k_ is True:
+                    return sym.unwrap(a0)
+                if k_ is False:
+                    return args[1]
             if name == "std::ops::Try::branch":
                 return mk("try", (), (a0,))
             if name == "std::ops::FromResidual::from_residual":
@@ -1103,6 +1256,8 @@ class _Run:
                     return a0
                 if name in ("std::iter::Iterator::filter", "std::iter::Iterator::map") and len(args) == 2 and self.closure_target(args[1]) is not None:
                     return mk("iteradapt", (nm,), (a0, args[1]))
+                if name == "std::iter::Iterator::flatten" and len(args) == 1:
+                    return mk("iteradapt", ("flatten",), (a0, sym.tup([])))
             if name in PURE_LIB:
                 return sym.op(PURE_LIB[name], *args)
             if name == "std::boxed::Box::new_uninit":
